@@ -299,8 +299,13 @@ func checkCases(r *core.Run, voc *Vocab, cases []*Case, stats *stats) {
 	for i, c := range cases {
 		rng := rand.New(rand.NewSource(r.Seed*1000003 + int64(i)))
 		w := &work{c: c, style: randStyle(rng)}
+		cfgs := pickConfigs(rng, r.Thorough())
+		if c.Family == "witness" {
+			w.style = Style{Group: true, LastSemi: true}
+			cfgs = []config{{"off", "chrome50", "css"}, {"all", "firefox60", "css"}}
+		}
 		w.text = voc.Render(c.Items, w.style)
-		for _, cfg := range pickConfigs(rng, r.Thorough()) {
+		for _, cfg := range cfgs {
 			w.outs = append(w.outs, &outcome{cfg: cfg})
 		}
 		works[i] = w
@@ -466,6 +471,7 @@ func judge(r *core.Run, voc *Vocab, i int, w *work, results map[string]*nodeResu
 			continue
 		}
 		bad := ""
+		badEnv := -1
 		var cells int64
 	scan:
 		for pos, k := range o.envIx {
@@ -493,6 +499,7 @@ func judge(r *core.Run, voc *Vocab, i int, w *work, results map[string]*nodeResu
 						ok = false
 					}
 					if !ok {
+						badEnv = k
 						bad = fmt.Sprintf("environment {feats %v conds %v} element %s property %s: input winner %q, output winner %q (not the input's winner in this or any more capable environment)",
 							c.Envs[k].Feats, map[string]bool(c.Envs[k].Conds), elemKey(e), lh, inK, ov)
 						break scan
@@ -506,6 +513,9 @@ func judge(r *core.Run, voc *Vocab, i int, w *work, results map[string]*nodeResu
 		if bad != "" && !reported {
 			reported = true
 			key := map[string]interface{}{"css": w.text, "minify": o.cfg.Minify, "target": o.cfg.Target, "loader": o.cfg.Loader}
+			if cl := classify(c, o, badEnv); cl != "" {
+				key["class"] = cl
+			}
 			r.Violation(key, fmt.Sprintf("cascade not preserved (%s): %s\n--- input\n%s\n--- output\n%s", o.cfg, bad, w.text, o.text),
 				map[string]interface{}{"case": c.Name, "family": c.Family, "items": c.Items, "style": w.style, "config": o.cfg, "input": w.text, "output": o.text, "what": bad,
 					"files": w.files, "graph": w.graph})
@@ -686,6 +696,22 @@ func replay(r *core.Run, st *stats) {
 	}
 	judge(r, voc, 0, w, evalJobs(r, dom, jobs, 1), st)
 	finish(r, st)
+}
+
+// classify names the one class of violations that is a listed known finding (known_findings.jsonl):
+// the target has no :is() (so esbuild expands a parent selector LIST member by member when it lowers
+// nesting), a rule is nested under a list whose members differ in specificity (Css!MixedParent), and
+// the failing environment is a browser that understands nesting (where the input's nested rule has the
+// specificity of :is(list), i.e. of its most specific member).  Computed from the scenario, not from the failure.
+func classify(c *Case, o *outcome, envIx int) string {
+	if envIx < 0 || !c.Mixed {
+		return ""
+	}
+	tg := targetByName(o.cfg.Target)
+	if subset([]string{"is"}, tg.feats) || !c.Envs[envIx].has("nesting") {
+		return ""
+	}
+	return "nesting-list-expansion-specificity"
 }
 
 func pickS(r *core.Run, q, t string) string {
